@@ -887,6 +887,14 @@ package dsl
 // A real operand that becomes complex is first converted to the floating-point type of the same precision as the
 // complex target: float for complexfloat, double for complexdouble (a narrower intermediate type would lose digits
 // that the target can hold).
+// C19: the type checker makes every promotion explicit - an operand whose type is not the type the operation is carried
+// out in is wrapped in a conversion to that type, whatever the two types are. The printers rely on it: none of the target
+// languages promotes the way yardl does (numpy scalars wrap in their own width, C++ converts int32 * uint32 to unsigned).
+//@ observe-args dsl.adjustConversion
+//@ func insertConversion
+//@   property C19
+//@   ensures an_operand_of_another_type_is_converted_to_the_target_type: calls(TypesEqual) >= 1 && !lastResult(TypesEqual) ==> calls(adjustConversion) == 1 && lastArg(adjustConversion, 0) != nil && lastArg(adjustConversion, 0).Type == targetType && lastArg(adjustConversion, 0).Expression == expression && result == lastResult(adjustConversion)
+//@   ensures the_types_are_always_compared: calls(TypesEqual) == 1
 //@ observe-args dsl.insertConversion
 //@ func adjustConversion
 //@   property C19
